@@ -524,3 +524,265 @@ Proof.
     destruct Hnp as (Ha & Hl & Hfold'). rewrite Ha, Hl in Hst. rewrite Hfold' in Hfold.
     exists res, last. split; [exact Hfold|]. split; [exact Hst|exact Hres].
 Qed.
+
+(* ---------- cleanup ---------- *)
+Lemma is_expired_spec now timeout p :
+  min_i64 <= timeout -> is_expired now timeout p = true ->
+  exists t, p_last_seen p = Some t /\ timeout < now - t.
+Proof.
+  unfold is_expired. intros Ht. destruct (p_last_seen p) as [t|]; [|discriminate].
+  intros H. apply Z.ltb_lt in H. exists t. split; [reflexivity|]. eapply sat_sub_gt; eauto.
+Qed.
+
+Lemma cleanup_loop_spec now timeout keep : forall st st' n,
+  cleanup_loop now timeout keep st = Some (st', n) ->
+  (forall k r', In (k, r') st' ->
+     exists r, In (k, r) st /\
+       ((mem k keep = true /\ r' = r) \/
+        (mem k keep = false /\ exists p, to_peer r = Some p /\ is_expired now timeout p = false /\ r' = peer_to_record p))) /\
+  (forall k r, In (k, r) st ->
+     In k (keys st') \/ (mem k keep = false /\ exists p, to_peer r = Some p /\ is_expired now timeout p = true)) /\
+  incl (keys st') (keys st) /\
+  (NoDup (keys st) -> NoDup (keys st')).
+Proof.
+  induction st as [|[k0 r0] rest IH]; intros st' n H; simpl in H.
+  - inversion H; subst. repeat split; try (intros ? ? []); [apply incl_refl|auto].
+  - destruct (mem k0 keep) eqn:Ek.
+    + destruct (cleanup_loop now timeout keep rest) as [[st1 n1]|] eqn:El; [|discriminate].
+      inversion H; subst. destruct (IH _ _ eq_refl) as (I1 & I2 & I3 & I4). repeat split.
+      * intros k r' [E|Hin].
+        -- inversion E; subst. exists r'. split; [left; reflexivity|]. left. auto.
+        -- destruct (I1 _ _ Hin) as (r & Hr & Hc). exists r. split; [right; exact Hr|exact Hc].
+      * intros k r [E|Hin].
+        -- inversion E; subst. left. left. reflexivity.
+        -- destruct (I2 _ _ Hin) as [Hk|Hx]; [left; right; exact Hk|right; exact Hx].
+      * unfold keys; simpl. intros x [->|Hx]; [left; reflexivity|right; apply I3; exact Hx].
+      * unfold keys; simpl. intros Hnd. inversion Hnd as [|? ? Hni Hnd']; subst. constructor; [|auto].
+        intros Hin. apply Hni. apply I3. exact Hin.
+    + destruct (to_peer r0) as [p0|] eqn:Ep; [|discriminate].
+      destruct (cleanup_loop now timeout keep rest) as [[st1 n1]|] eqn:El; [|discriminate].
+      destruct (IH _ _ eq_refl) as (I1 & I2 & I3 & I4).
+      destruct (is_expired now timeout p0) eqn:Ex; inversion H; subst; repeat split.
+      * intros k r' Hin. destruct (I1 _ _ Hin) as (r & Hr & Hc). exists r. split; [right; exact Hr|exact Hc].
+      * intros k r [E|Hin].
+        -- inversion E; subst. right. split; [exact Ek|]. exists p0. auto.
+        -- destruct (I2 _ _ Hin) as [Hk|Hx]; [left; exact Hk|right; exact Hx].
+      * unfold keys; simpl. intros x Hx. right. apply I3. exact Hx.
+      * unfold keys; simpl. intros Hnd. inversion Hnd; subst. auto.
+      * intros k r' [E|Hin].
+        -- inversion E; subst. exists r0. split; [left; reflexivity|]. right. split; [exact Ek|]. exists p0. auto.
+        -- destruct (I1 _ _ Hin) as (r & Hr & Hc). exists r. split; [right; exact Hr|exact Hc].
+      * intros k r [E|Hin].
+        -- inversion E; subst. left. left. reflexivity.
+        -- destruct (I2 _ _ Hin) as [Hk|Hx]; [left; right; exact Hk|right; exact Hx].
+      * unfold keys; simpl. intros x [->|Hx]; [left; reflexivity|right; apply I3; exact Hx].
+      * unfold keys; simpl. intros Hnd. inversion Hnd as [|? ? Hni Hnd']; subst. constructor; [|auto].
+        intros Hin. apply Hni. apply I3. exact Hin.
+Qed.
+
+Definition expired_record (now timeout : Z) (st : store) (k : string) : Prop :=
+  exists r p t, In (k, r) st /\ to_peer r = Some p /\ p_last_seen p = Some t /\ timeout < now - t.
+
+Lemma has_key_in k st : has_key k st -> exists r, In (k, r) st.
+Proof.
+  unfold has_key, keys. intros H. apply in_map_iff in H. destruct H as ([k' r] & E & Hin). simpl in E. subst. eauto.
+Qed.
+
+Lemma cleanup_expired_except_removal now timeout keep st k :
+  has_key k st -> ~ has_key k (fst (cleanup_expired_except now timeout keep st)) ->
+  0 < timeout /\ ~ In k keep /\ expired_record now timeout st k.
+Proof.
+  unfold cleanup_expired_except. intros Hk Hnk. destruct (Z.leb_spec timeout 0) as [Hle|Hgt]; [simpl in Hnk; tauto|].
+  destruct (cleanup_loop now timeout keep st) as [[st' n]|] eqn:El; simpl in Hnk; [|tauto].
+  destruct (cleanup_loop_spec _ _ _ _ _ _ El) as (_ & I2 & _ & _).
+  destruct (has_key_in _ _ Hk) as (r & Hr). destruct (I2 _ _ Hr) as [Hin|(Hm & p & Hp & Hx)]; [tauto|].
+  split; [exact Hgt|]. split; [now apply mem_false_iff|].
+  destruct (is_expired_spec now timeout p ltac:(unfold min_i64; lia) Hx) as (t & Ht & Hlt).
+  exists r, p, t. auto.
+Qed.
+
+Lemma cleanup_expired_except_nodup now timeout keep st :
+  NoDup (keys st) -> NoDup (keys (fst (cleanup_expired_except now timeout keep st))).
+Proof.
+  unfold cleanup_expired_except. intros H. destruct (timeout <=? 0); [exact H|].
+  destruct (cleanup_loop now timeout keep st) as [[st' n]|] eqn:El; simpl; [|exact H].
+  destruct (cleanup_loop_spec _ _ _ _ _ _ El) as (_ & _ & _ & I4). auto.
+Qed.
+
+(* ---------- poll loop over stored peers ---------- *)
+Lemma load_all_keys st peers : load_all st = Some peers -> map fst peers = keys st.
+Proof.
+  revert peers. induction st as [|[k r] rest IH]; intros peers H; simpl in H.
+  - inversion H; reflexivity.
+  - destruct (to_peer r); [|discriminate]. destruct (load_all rest) as [l|]; [|discriminate].
+    inversion H; subst. unfold keys; simpl. f_equal. now apply IH.
+Qed.
+
+Lemma load_all_in st peers k p : load_all st = Some peers -> In (k, p) peers ->
+  exists r, In (k, r) st /\ to_peer r = Some p.
+Proof.
+  revert peers. induction st as [|[k0 r0] rest IH]; intros peers H Hin; simpl in H.
+  - inversion H; subst. destruct Hin.
+  - destruct (to_peer r0) as [p0|] eqn:Ep; [|discriminate]. destruct (load_all rest) as [l|]; [|discriminate].
+    inversion H; subst. destruct Hin as [E|Hin].
+    + inversion E; subst. exists r0. split; [left; reflexivity|exact Ep].
+    + destruct (IH _ eq_refl Hin) as (r & Hr & Hp). exists r. split; [right; exact Hr|exact Hp].
+Qed.
+
+Definition polled_peer (now : Z) (p : peer) : peer :=
+  Peer (p_address p) (p_cap p) (p_status p) (Some now) (p_last_seen p).
+
+Lemma poll_known_spec now timeout force s : forall peers st st' ms,
+  poll_known now timeout force s peers st = (st', ms) ->
+  (forall k, st_get k st' = st_get k st \/
+             exists p, In (k, p) peers /\ st_get k st' = Some (peer_to_record (polled_peer now p))) /\
+  (forall k, has_key k st -> has_key k st') /\
+  (forall k, has_key k st' -> has_key k st \/ In k (map fst peers)) /\
+  (NoDup (keys st) -> NoDup (keys st')) /\
+  (forall k ty ok, In (k, ty, ok) ms -> In k (map fst peers)).
+Proof.
+  induction peers as [|[k0 p0] rest IH]; intros st st' ms H; simpl in H.
+  - inversion H; subst. repeat split; auto; intros ? ? ? [].
+  - assert (Hskip : poll_known now timeout force s rest st = (st', ms) ->
+      (forall k, st_get k st' = st_get k st \/
+             exists p, In (k, p) ((k0, p0) :: rest) /\ st_get k st' = Some (peer_to_record (polled_peer now p))) /\
+      (forall k, has_key k st -> has_key k st') /\
+      (forall k, has_key k st' -> has_key k st \/ In k (map fst ((k0, p0) :: rest))) /\
+      (NoDup (keys st) -> NoDup (keys st')) /\
+      (forall k ty ok, In (k, ty, ok) ms -> In k (map fst ((k0, p0) :: rest)))).
+    { intros H'. destruct (IH _ _ _ H') as (I1 & I2 & I3 & I4 & I5). repeat split; auto.
+      - intros k. destruct (I1 k) as [E|(p & Hp & E)]; [left; exact E|right; exists p; split; [right; exact Hp|exact E]].
+      - intros k Hk. destruct (I3 k Hk); [left; assumption|right; right; assumption].
+      - intros k ty ok Hin. right. eapply I5; eauto. }
+    revert H.
+    destruct (negb force && negb (should_poll now p0)); [exact Hskip|].
+    destruct (mem k0 (s_susp s)); [exact Hskip|].
+    set (m := do_send s k0 (if capability_is_stale now timeout p0 then ps_msgtype_request_poll else ps_msgtype_poll)).
+    destruct (negb (mem k0 (s_sendfail s))).
+    + fold (polled_peer now p0).
+      destruct (poll_known now timeout force s rest (st_put k0 (peer_to_record (polled_peer now p0)) st)) as [st1 ms1] eqn:E1.
+      intros H. inversion H; subst. destruct (IH _ _ _ E1) as (I1 & I2 & I3 & I4 & I5). repeat split.
+      * intros k. destruct (I1 k) as [E|(p & Hp & E)].
+        -- destruct (string_dec k k0) as [->|Hne].
+           ++ right. exists p0. split; [left; reflexivity|]. rewrite E. apply st_get_put_same.
+           ++ left. rewrite E. now apply st_get_put_other.
+        -- right. exists p. split; [right; exact Hp|exact E].
+      * intros k Hk. apply I2. apply has_key_put. right. exact Hk.
+      * intros k Hk. destruct (I3 k Hk) as [Hp|Hp].
+        -- apply has_key_put in Hp. destruct Hp as [->|Hp]; [right; left; reflexivity|left; exact Hp].
+        -- right. right. exact Hp.
+      * intros Hnd. apply I4. now apply nodup_put.
+      * intros k ty ok [E|Hin]; [unfold m, do_send in E; inversion E; subst; left; reflexivity|right; eapply I5; eauto].
+    + destruct (poll_known now timeout force s rest st) as [st1 ms1] eqn:E1. intros H. inversion H; subst.
+      destruct (IH _ _ _ E1) as (I1 & I2 & I3 & I4 & I5). repeat split; auto.
+      * intros k. destruct (I1 k) as [E|(p & Hp & E)]; [left; exact E|right; exists p; split; [right; exact Hp|exact E]].
+      * intros k Hk. destruct (I3 k Hk); [left; assumption|right; right; assumption].
+      * intros k ty ok [E|Hin]; [unfold m, do_send in E; inversion E; subst; left; reflexivity|right; eapply I5; eauto].
+Qed.
+
+(* ---------- which operations can make a peer disappear ---------- *)
+Definition removal_cause (now : Z) (s : state) (o : op) (k : string) : Prop :=
+  (o = OCleanup /\ s_listfail s = false /\ ~ In k (s_conn s) /\
+   expired_record now ps_cleanup_timeout (s_store s) k) \/
+  (exists timeout keep, o = OCleanupDirect timeout keep /\ 0 < timeout /\ ~ In k keep /\
+   expired_record now timeout (s_store s) k) \/
+  o = ORemove k.
+
+Lemma store_capability_message_keys now s from payload k :
+  has_key k (s_store s) -> has_key k (store_capability_message now s from payload).
+Proof.
+  unfold store_capability_message. intros H. destruct payload as [sn|]; [|exact H].
+  destruct (to_capability sn); [|exact H]. destruct (mem from (s_susp s)); [exact H|].
+  destruct (match st_get from (s_store s) with None => Some new_peer | Some r => to_peer r end); [|exact H].
+  apply has_key_put. right. exact H.
+Qed.
+
+Lemma poll_peers_store now force s :
+  s_store (fst (poll_peers now force s)) = s_store s \/
+  exists peers, load_all (s_store s) = Some peers /\
+    s_store (fst (poll_peers now force s)) = fst (poll_known now ps_poller_timeout force s peers (s_store s)).
+Proof.
+  unfold poll_peers. destruct (load_all (s_store s)) as [peers|]; [|left; reflexivity].
+  right. exists peers. split; [reflexivity|].
+  destruct (poll_known now ps_poller_timeout force s peers (s_store s)) as [st' ms1]. simpl.
+  destruct (s_listfail s); [reflexivity|].
+  destruct (request_unknown ps_poller_request_interval now force s (map fst peers) (s_conn s) (prune_req (s_conn s) (s_req s))).
+  reflexivity.
+Qed.
+
+Lemma step_removal now s o k :
+  has_key k (s_store s) -> ~ has_key k (s_store (state_after (step now s o))) -> removal_cause now s o k.
+Proof.
+  intros Hk Hnk. unfold state_after in Hnk. destruct o; simpl in Hnk.
+  - exfalso. apply Hnk. destruct (handle_message now s from ty payload) as [s' ms] eqn:E. simpl.
+    pose proof (handle_message_store now s from ty payload) as Hs. rewrite E in Hs. simpl in Hs. rewrite Hs.
+    destruct (_ && _); [now apply store_capability_message_keys|exact Hk].
+  - exfalso. apply Hnk. destruct (poll_peers now force s) as [s' ms] eqn:E. simpl.
+    destruct (poll_peers_store now force s) as [Hs|(peers & Hl & Hs)]; rewrite E in Hs; simpl in Hs; rewrite Hs; [exact Hk|].
+    destruct (poll_known now ps_poller_timeout force s peers (s_store s)) as [st' ms1] eqn:Ep.
+    destruct (poll_known_spec _ _ _ _ _ _ _ _ Ep) as (_ & I2 & _). simpl. auto.
+  - unfold poller_cleanup in Hnk. destruct (s_listfail s) eqn:El; [simpl in Hnk; tauto|].
+    destruct (cleanup_expired_except now ps_poller_timeout (s_conn s) (s_store s)) as [st' n] eqn:Ec. simpl in Hnk.
+    pose proof (cleanup_expired_except_removal now ps_poller_timeout (s_conn s) (s_store s) k Hk) as Hr.
+    rewrite Ec in Hr. simpl in Hr. destruct (Hr Hnk) as (_ & Hc & He). left. repeat split; auto.
+  - destruct (cleanup_expired_except now timeout keep (s_store s)) as [st' n] eqn:Ec. simpl in Hnk.
+    pose proof (cleanup_expired_except_removal now timeout keep (s_store s) k Hk) as Hr.
+    rewrite Ec in Hr. simpl in Hr. destruct (Hr Hnk) as (Ht & Hc & He). right. left. exists timeout, keep. auto.
+  - tauto.
+  - tauto.
+  - tauto.
+  - tauto.
+  - tauto.
+  - destruct (has_compatible_peer s id); simpl in Hnk; tauto.
+  - exfalso. apply Hnk. apply has_key_put. right. exact Hk.
+  - right. right. destruct (string_dec p k) as [->|Hne]; [reflexivity|].
+    exfalso. apply Hnk. apply has_key_del. split; [congruence|exact Hk].
+Qed.
+
+Lemma run_app s a b : run s (a ++ b) = run (run s a) b.
+Proof. revert s. induction a as [|[now o] r IH]; intros s; simpl; [reflexivity|apply IH]. Qed.
+
+Lemma run_removal : forall ops s k,
+  has_key k (s_store s) -> ~ has_key k (s_store (run s ops)) ->
+  exists pre now o post, ops = pre ++ (now, o) :: post /\
+    has_key k (s_store (run s pre)) /\ removal_cause now (run s pre) o k.
+Proof.
+  induction ops as [|[now o] r IH]; intros s k Hk Hnk; simpl in Hnk; [tauto|].
+  destruct (in_dec string_dec k (keys (s_store (state_after (step now s o))))) as [Hin|Hout].
+  - destruct (IH _ _ Hin Hnk) as (pre & now' & o' & post & -> & H1 & H2).
+    exists ((now, o) :: pre), now', o', post. split; [reflexivity|]. simpl. auto.
+  - exists [], now, o, r. split; [reflexivity|]. simpl. split; [exact Hk|]. now apply step_removal.
+Qed.
+
+(* ---------- store well-formedness along every history ---------- *)
+Lemma step_nodup now s o :
+  NoDup (keys (s_store s)) -> NoDup (keys (s_store (state_after (step now s o)))).
+Proof.
+  intros H. unfold state_after. destruct o; simpl; try exact H.
+  - destruct (handle_message now s from ty payload) as [s' ms] eqn:E. simpl.
+    pose proof (handle_message_store now s from ty payload) as Hs. rewrite E in Hs. simpl in Hs. rewrite Hs.
+    destruct (_ && _); [|exact H]. unfold store_capability_message.
+    destruct payload as [sn|]; [|exact H]. destruct (to_capability sn); [|exact H].
+    destruct (mem from (s_susp s)); [exact H|].
+    destruct (match st_get from (s_store s) with None => Some new_peer | Some r => to_peer r end); [|exact H].
+    now apply nodup_put.
+  - destruct (poll_peers now force s) as [s' ms] eqn:E. simpl.
+    destruct (poll_peers_store now force s) as [Hs|(peers & Hl & Hs)]; rewrite E in Hs; simpl in Hs; rewrite Hs; [exact H|].
+    destruct (poll_known now ps_poller_timeout force s peers (s_store s)) as [st' ms1] eqn:Ep.
+    destruct (poll_known_spec _ _ _ _ _ _ _ _ Ep) as (_ & _ & _ & I4 & _). simpl. auto.
+  - unfold poller_cleanup. destruct (s_listfail s); [exact H|].
+    pose proof (cleanup_expired_except_nodup now ps_poller_timeout (s_conn s) (s_store s) H) as Hn.
+    destruct (cleanup_expired_except now ps_poller_timeout (s_conn s) (s_store s)). simpl in *. exact Hn.
+  - pose proof (cleanup_expired_except_nodup now timeout keep (s_store s) H) as Hn.
+    destruct (cleanup_expired_except now timeout keep (s_store s)). simpl in *. exact Hn.
+  - now apply nodup_put.
+  - now apply nodup_del.
+Qed.
+
+Lemma run_nodup ops : forall s, NoDup (keys (s_store s)) -> NoDup (keys (s_store (run s ops))).
+Proof.
+  induction ops as [|[now o] r IH]; intros s H; simpl; [exact H|]. apply IH. now apply step_nodup.
+Qed.
+
+Lemma reachable_nodup ops : NoDup (keys (s_store (run init_state ops))).
+Proof. apply run_nodup. constructor. Qed.
